@@ -14,6 +14,9 @@ from .tokenizer import _guard_tests
 
 F = "pdfminer.pdffont."
 # Annex D.1/D.2 footnotes: codes where the PDF encodings deliberately differ from the platform code pages
+# codes the platform code page defines but the PDF encoding leaves undefined (ISO 32000-1 Annex D.2: MacRomanEncoding has none of the
+# Mac OS Roman mathematical symbols: not-equal, infinity, <=, >=, partial, sum, product, pi, integral, Omega, sqrt, approx, Delta, lozenge)
+DOCUMENTED_ABSENT = {"mac_roman": ["0xad", "0xb0", "0xb2", "0xb3", "0xb6", "0xb7", "0xb8", "0xb9", "0xba", "0xbd", "0xc3", "0xc5", "0xc6", "0xd7"], "cp1252": []}
 DOCUMENTED_DIFFS = {"mac_roman": {0xCA: " ", 0xDB: "¤"}, "cp1252": {0xA0: " ", 0xAD: "-"}}
 
 
@@ -72,6 +75,16 @@ def run(model: Model, rep: Report) -> None:
     for cname, codec in (("mac", "mac_roman"), ("win", "cp1252")):
         diffs = {}
         agree = 0
+        # every printable character the platform code page defines must be present in the column
+        absent = []
+        for code in range(0x20, 0x100):
+            try:
+                py = bytes((code,)).decode(codec)
+            except UnicodeDecodeError:
+                continue
+            if py.isprintable() and not py.isspace() and code not in tables[cname] and code != 0x7F:
+                absent.append(hex(code))
+        r2.check(absent == DOCUMENTED_ABSENT[codec], f"pdfminer/latin_enc.py:{em.assigns['ENCODING'].lineno}:ENCODING", "pdfminer.latin_enc.ENCODING", f"column {cname} defines every printable code of {codec} (except the {len(DOCUMENTED_ABSENT[codec])} documented omissions)", why=f"missing codes {absent}")
         for code, ch in tables[cname].items():
             try:
                 py = bytes((code,)).decode(codec)
